@@ -398,8 +398,10 @@ def topological_sort(nodes):
             dep = enumerators.get(dep, dep)
             if dep != node.name and dep not in known and dep in available:
                 found_index = find_first_dep(dep, index + 1)
-                if found_index:
-                    nodes.insert(index, nodes.pop(found_index))
+                if not found_index or dep in rotated:
+                    raise ModelError("Cyclic dependency between definitions '%s' and '%s'." % (node.name, dep))
+                rotated.add(dep)
+                nodes.insert(index, nodes.pop(found_index))
                 return True
         known.add(node.name)
 
@@ -407,6 +409,7 @@ def topological_sort(nodes):
     available = set(node.name for node in nodes)
     enumerators = dict((member.name, node.name) for node in nodes if isinstance(node, Enum) for member in node.members)
     for index in range(len(nodes)):
+        rotated = set()
         while model_sort_rotate():
             pass
 
